@@ -589,6 +589,9 @@ fn check_socket(count: &u32, case: &mut Case) -> Result<(), Fail> {
     } else {
         case.class("async-services-skipped");
     }
+    if async_up {
+        sent += rivals(&sock, "vpselfasync");
+    }
     let async_alive = if async_up { patient_probe(&sock, "vp-canary-async.local") } else { Some(true) };
     stop.store(true, std::sync::atomic::Ordering::SeqCst);
     if let Ok(t) = async_thread {
@@ -611,8 +614,25 @@ fn check_socket(count: &u32, case: &mut Case) -> Result<(), Fail> {
     case.class("socket-tier-ran");
     std::thread::sleep(std::time::Duration::from_millis(300));
     // barrier: the responder still answers, the discovery store is still usable
+    sent += rivals(&sock, "vpself");
+    case.extra_evals = sent;
     let alive = patient_probe(&sock, "vp-canary.local");
-    let known = meter::catch(|| discovery.get_known_services().len());
+    // the application side on a helper thread: a receive loop that wedged while holding the store's lock would
+    // block this call for ever
+    let (ktx, krx) = std::sync::mpsc::channel();
+    let _ = std::thread::Builder::new().name("vp-known-services".into()).spawn(move || {
+        let r = meter::catch(|| discovery.get_known_services().len());
+        let _ = ktx.send(r);
+    });
+    let known = match krx.recv_timeout(std::time::Duration::from_secs(30)) {
+        Ok(r) => r,
+        Err(_) => {
+            return Err(Fail::new(
+                "c14:store-wedged",
+                format!("get_known_services of the sync discovery did not return within 30 s after {} datagrams (the last ones: responses owned by the discoverer's own instance name)", sent),
+            ));
+        }
+    };
     let panics: Vec<(String, meter::Panic)> = meter::ALL_PANICS.lock().unwrap()[before..].iter().filter(|(_, p)| p.in_library()).cloned().collect();
     if let Some((thread, p)) = panics.first() {
         return Err(Fail::new(p.signature(), format!("a library thread ({}) panicked while {} hostile datagrams were delivered over loopback multicast: {}:{}: {}", thread, sent, p.file, p.line, p.msg)));
@@ -631,6 +651,35 @@ fn check_socket(count: &u32, case: &mut Case) -> Result<(), Fail> {
     ensure!(async_alive == Some(true), "c14:responder-dead", "the async responder answered before the hostile datagrams and does not answer afterwards (30 retries over 10 s), while a responder created afterwards does");
     ensure!(alive == Some(true), "c14:responder-dead", "the responder answered before {} hostile datagrams and does not answer afterwards (30 retries over 10 s), while a responder created afterwards does", sent);
     Ok(())
+}
+
+/// rivals: responses whose records are owned by a discoverer's own instance name, with the registered type and
+/// class and the same or different RDATA (another host claiming the name); returns the number of datagrams sent
+fn rivals(sock: &std::net::UdpSocket, own: &str) -> u64 {
+    let mut sent = 0;
+    let owner = AName::from_strs(&[own, "_srv", "_tcp", "local"]);
+    for (k, rd) in [
+        super::c13::a(0x7f000001),
+        super::c13::a(0x7f000002),
+        ARData::Typed { code: 33, fields: vec![Val::U16(0), Val::U16(0), Val::U16(9), Val::Name(owner.clone())] },
+        ARData::Typed { code: 33, fields: vec![Val::U16(0), Val::U16(0), Val::U16(10), Val::Name(owner.clone())] },
+        ARData::Typed { code: 16, fields: vec![Val::Strs(vec![Bytes(b"rival=1".to_vec())])] },
+        ARData::Typed { code: 16, fields: vec![Val::Strs(vec![])] },
+    ]
+    .into_iter()
+    .enumerate()
+    {
+        let mut p = APacket { id: 0, flags: 0x8400, ..Default::default() };
+        p.answers.push(ARecord { name: owner.clone(), class: 1, cache_flush: k % 2 == 1, ttl: 60, rdata: rd });
+        let bytes = encode_message(&p, &EncOpts::compressed());
+        for _ in 0..2 {
+            if sock.send_to(&bytes, "224.0.0.251:5353").is_ok() {
+                sent += 1;
+            }
+        }
+    }
+    std::thread::sleep(std::time::Duration::from_millis(100));
+    sent
 }
 
 // ---- readers and writers on the shared store at the same time
